@@ -114,7 +114,7 @@ theorem offCore_spec (sp : OffSp) (l : Array String) (pre post : List String) (s
         have : k = pre.length := by simp at h2; omega
         left; simp [this]
   | colon a b =>
-      obtain ⟨ha0, hb0, hlen⟩ := hok
+      obtain ⟨ha0, hb0, hlen, _, _⟩ := hok
       have ha : pyInt a.tok = some a.val := ha0
       have hb : pyInt b.tok = some b.val := hb0
       simp only [OffSp.chunks, numC, pC, toksOf_cons, toksOf_nil, String.ofList_toList, List.cons_append,
